@@ -435,5 +435,30 @@ def r10_type_keyword_normal_form(chk: Check) -> None:
         chk.undecided("C02.R10", "<discovery>", f"sites={n}", "fewer reads of the type keyword than confirmed by hand")
 
 
+def r12_declared_parameters_not_merged(chk: Check) -> None:
+    chk.rule("C02.R12", "SOURCE(schema that is negated = schema that is declared): the per-location schema handed to negative_schema is built from operation.iter_parameters(); where operation-level and path-level parameters are merged, an operation-level definition replaces the path-level one whole - a field-by-field merge makes the negated schema stricter than the declared one (an inherited `required: true`), so `remove_required_property` yields a value labelled NEGATIVE that the declared schema accepts", floor=2)
+    from .c08 import OAS, _fieldwise_merge
+
+    P = chk.project
+    n = 0
+    for ref in (f"{OAS}:BaseOpenAPISchema.get_all_operations", f"{OAS}:BaseOpenAPISchema._collect_operation_parameters"):
+        fn = P.func(ref)
+        for c in body_calls(fn):
+            if last_attr(c) != "collect_parameters" or not c.args or not isinstance(c.args[0], ast.Call):
+                continue
+            r = P.resolve_call(fn, c.args[0])
+            if not (r and r[0] == "func"):
+                continue
+            n += 1
+            fw = _fieldwise_merge(r[1])  # type: ignore[arg-type]
+            construct = f"{r[1].name}: an overriding parameter replaces the overridden one whole"  # type: ignore[union-attr]
+            if fw is None:
+                chk.ok("C02.R12", fn, construct, "no key-by-key combination of two definitions in the merge helper", fn.loc(c))
+            else:
+                chk.violation("C02.R12", fn, construct, f"`{unparse(fw, 60)}`: fields the operation-level definition omits are inherited from the path level; the schema that is negated is not the declared one", r[1].loc(fw))  # type: ignore[union-attr]
+    if n < 2:
+        chk.undecided("C02.R12", "<discovery>", f"merge sites={n}", "fewer merge-helper call sites than confirmed by hand (2)")
+
+
 def rules(tier: str) -> list:  # type: ignore[type-arg]
-    return [r1_invalidity_filter, r2_factory_label, r3_something_negated, r4_labels, r5_mutations, r6_memo, r7_not_shapes_agree, r8_existential_predicates, r9_oracle_dialect, r4b_label_records, r10_type_keyword_normal_form]
+    return [r1_invalidity_filter, r2_factory_label, r3_something_negated, r4_labels, r5_mutations, r6_memo, r7_not_shapes_agree, r8_existential_predicates, r9_oracle_dialect, r4b_label_records, r10_type_keyword_normal_form, r12_declared_parameters_not_merged]
